@@ -77,15 +77,86 @@ def all_states(depth: int) -> list[tuple]:
 # ---- realisation and invariants ----------------------------------------------------------------
 
 
+_THREAD_MODE = "main"
+
+
+class _Worker:
+    """a persistent second thread that executes creations handed to it, one at a time (no
+    concurrency: the caller waits for each result)"""
+
+    def __init__(self) -> None:
+        import queue
+        import threading
+        self.q: Any = queue.Queue()
+        self.r: Any = queue.Queue()
+        self.t = threading.Thread(target=self._loop, daemon=True)
+        self.t.start()
+
+    def _loop(self) -> None:
+        while True:
+            fn = self.q.get()
+            try:
+                self.r.put((True, fn()))
+            except BaseException as ex:  # pylint: disable=broad-except
+                self.r.put((False, ex))
+
+    def call(self, fn: Any) -> Any:
+        self.q.put(fn)
+        ok, v = self.r.get()
+        if not ok:
+            raise v
+        return v
+
+
+_WORKER: Any = None
+
+
+def _create(i: int, fn: Any) -> Any:
+    """run one creation event on the thread the current mode assigns to position i"""
+    global _WORKER
+    if _THREAD_MODE == "main":
+        return fn()
+    if _THREAD_MODE == "fresh":  # every event on a new thread of its own
+        import threading
+        box: list = []
+
+        def run() -> None:
+            try:
+                box.append((True, fn()))
+            except BaseException as ex:  # pylint: disable=broad-except
+                box.append((False, ex))
+
+        t = threading.Thread(target=run)
+        t.start()
+        t.join()
+        ok, v = box[0]
+        if not ok:
+            raise v
+        return v
+    # "alternate": even positions on the main thread, odd ones on a persistent worker
+    if i % 2 == 0:
+        return fn()
+    if _WORKER is None:
+        _WORKER = _Worker()
+    return _WORKER.call(fn)
+
+
 def realise(state: tuple) -> list[dict]:
+    objs: list[dict] = []
+    for i, ev in enumerate(state):
+        rec = _create(i, lambda ev=ev: _realise_one(ev, objs))
+        objs.append(rec)
+    return objs
+
+
+def _realise_one(ev: tuple, objs: list[dict]) -> dict:
     from sympy.physics import units as U
     from symplyphysics import (Symbol, Function, IndexedSymbol, Quantity, CoordinateSystem,
         clone_as_symbol, clone_as_function)
     from symplyphysics.core.symbols.symbols import clone_as_indexed
     from symplyphysics.core.experimental.vectors import VectorSymbol
-    objs: list[dict] = []
     t = sp.Symbol("t")
-    for ev in state:
+    if True:
         kind = ev[0]
         rec: dict[str, Any] = {"kind": kind, "named": True}
         if kind == "S":
@@ -132,8 +203,7 @@ def realise(state: tuple) -> list[dict]:
             else:
                 rec["obj"] = clone_as_indexed(s)
             rec["named"] = src["named"]
-        objs.append(rec)
-    return objs
+    return rec
 
 
 def term_of(rec: dict) -> Optional[Any]:
@@ -334,9 +404,27 @@ def _work(chunk: list[tuple]) -> dict:
     from symplyphysics.core.symbols import id_generator as G
     res: dict[str, Any] = {"n": 0, "keys": [], "outcomes": {}, "violations": [], "samples": [],
         "states": 0, "transitions": 0, "traces": 0}
+    global _THREAD_MODE
     for st in chunk:
         before = {p: G._ids.get(p, 0) for p in ("SYM", "FUN", "QTY", "SYS")}
         errs = check_state(st)
+        if len(st) >= 2:
+            # the same history with its creations spread over threads (one at a time, no races):
+            # names must be unique across the whole process, not per thread
+            for mode in ("fresh", "alternate"):
+                _THREAD_MODE = mode
+                try:
+                    terrs = check_state(st)
+                finally:
+                    _THREAD_MODE = "main"
+                res["n"] += 1
+                res["traces"] += 1
+                res["outcomes"][f"threads-{mode}-ok" if not terrs else f"threads-{mode}-bad"] = \
+                    res["outcomes"].get(f"threads-{mode}-ok" if not terrs else f"threads-{mode}-bad",
+                    0) + 1
+                for e in terrs[:2]:
+                    res["violations"].append((f"{canon(st)}|threads:{mode}|{e.split(':')[0][:60]}",
+                        f"[creations on threads: {mode}] {e}", {"state": list(st), "threads": mode}))
         after = {p: G._ids.get(p, 0) for p in ("SYM", "FUN", "QTY", "SYS")}
         for p in before:
             if len(str(before[p])) != len(str(after[p])) or (before[p] == 0 and after[p] > 0):
@@ -407,7 +495,9 @@ def main(run: Run) -> int:
         rule=f"all multisets of <= {depth} creation / clone events over "
         f"{len(BASE_EVENTS)} base events and {len(CLONE_KINDS)} clone kinds (display names forced "
         "to collide on 'x'/'y'); canonical state = sorted object descriptors; every state re-created "
-        "on the live process and all invariants evaluated; plus the clone contract over all single "
+        "on the live process and all invariants evaluated, also with the creations spread over "
+        "threads (each on a fresh thread; alternating between the main thread and a persistent "
+        "worker; always one at a time); plus the clone contract over all single "
         "and pairwise assumption sets (14 facts x True/False) for Symbol and IndexedSymbol sources",
         exhaustive=True,
         assumptions=["creations commute and nothing is destroyed, so a state is the multiset of "
@@ -419,5 +509,10 @@ def replay(case: dict) -> list[str]:
     if "assumptions" in case:
         return [f"{k}: {v}" for k, v in clone_contract_cases(assumption_sets()) if v and k ==
             case["assumptions"]]
+    global _THREAD_MODE
     st = tuple(tuple(e) for e in case["state"])
-    return check_state(st)
+    _THREAD_MODE = case.get("threads", "main")
+    try:
+        return check_state(st)
+    finally:
+        _THREAD_MODE = "main"
